@@ -46,9 +46,11 @@ type c08case struct {
 }
 
 var (
-	c08sites   = map[uint32]c08site{}
-	c08ext     []c08extcall
-	c08allowed = []string{"math/bits.", "crypto/subtle.", "errors.New", "fmt.Errorf", "math.Pow", "(encoding/binary.", "io.ReadFull", "(*math/big.Int).Sign"}
+	c08sites = map[uint32]c08site{}
+	c08ext   []c08extcall
+	// sync and sync/atomic operations do not look at the data they guard: their control flow depends on the state of the
+	// runtime (contention, pool occupancy), never on a secret value; what the guarded code does is traced like all code
+	c08allowed = []string{"math/bits.", "crypto/subtle.", "errors.New", "fmt.Errorf", "math.Pow", "(encoding/binary.", "io.ReadFull", "(*math/big.Int).Sign", "(*sync.", "sync.", "sync/atomic."}
 	// call sites that carry public values although they sit on the signing path: r and s are the published signature,
 	// and the affine x1 of [k]G equals (r - e) mod n
 	c08publicFuncs = map[string]bool{"sm2:ensure32Bytes": true, "sm2/internal/fiat:SM2Element.ToBigInt": true}
@@ -518,6 +520,10 @@ func TestVX_C08(t *testing.T) {
 		}
 		var ref trace.Result
 		distinct := map[uint64]bool{}
+		same := func(a, b trace.Result) bool { return a.Hash == b.Hash && a.Events == b.Events }
+		// warm-up: what the first call of a process does differently (a pool's constructor, a lazily built table) is
+		// history, not a dependence on the secret
+		c08record(g.run, vx.UnHex(g.secrets[0]), false)
 		for i, s := range g.secrets {
 			sec := vx.UnHex(s)
 			res, pmsg := c08record(g.run, sec, true)
@@ -537,9 +543,58 @@ func TestVX_C08(t *testing.T) {
 				executedFuncs[g.name] = fs
 			}
 			distinct[res.Hash^res.Events<<48] = true
-			if res.Hash != ref.Hash || res.Events != ref.Events {
-				where := c08diverge(g.run, vx.UnHex(g.secrets[0]), sec)
-				r.Violation("ct:trace-differs:"+g.name+":"+where, fmt.Sprintf("%s: the executed blocks / indexed locations depend on the secret: %s vs %s; the traces first diverge at %s; sites with differing counts: %s", g.name, g.secrets[0], s, where, c08diff(ref, res)), c08case{g.name, s, g.secrets[0]})
+			if !same(res, ref) {
+				// secret-dependent or history-dependent (pools emptied by the collector, caches)? The sequence A A B B A B
+				// (A = the group's first secret, B = this one) is recorded repeatedly until two consecutive passes agree
+				// position by position. All six equal: a history effect that has died out. A's equal, B's equal, A != B:
+				// dependence on the secret's value. Anything else that is stable: the trace depends on whether the secret
+				// repeats the previous call's secret - also a dependence on secrets.
+				verdict := "unstable"
+				first := vx.UnHex(g.secrets[0])
+				seqS := [][]byte{first, first, sec, sec, first, sec}
+				pass := func() []trace.Result {
+					out := make([]trace.Result, len(seqS))
+					for k, x := range seqS {
+						out[k], _ = c08record(g.run, x, true)
+					}
+					return out
+				}
+				var a1, b1 trace.Result
+				prev := pass()
+				for try := 0; try < 4 && verdict == "unstable"; try++ {
+					cur := pass()
+					stable := true
+					for k := range cur {
+						stable = stable && same(cur[k], prev[k])
+					}
+					if stable {
+						allEq := true
+						for k := range cur {
+							allEq = allEq && same(cur[k], cur[0])
+						}
+						switch {
+						case allEq:
+							verdict, ref = "history", cur[0]
+						case same(cur[0], cur[1]) && same(cur[0], cur[4]) && same(cur[2], cur[3]) && same(cur[2], cur[5]):
+							verdict, a1, b1 = "data", cur[0], cur[2]
+						default:
+							verdict, a1, b1 = "repeat", cur[2], cur[3]
+						}
+					}
+					prev = cur
+				}
+				switch verdict {
+				case "data":
+					where := c08diverge(g.run, first, sec)
+					r.Violation("ct:trace-differs:"+g.name+":"+where, fmt.Sprintf("%s: the executed blocks / indexed locations depend on the secret: %s vs %s (reproduced in alternating order); the traces first diverge at %s; sites with differing counts: %s", g.name, g.secrets[0], s, where, c08diff(a1, b1)), c08case{g.name, s, g.secrets[0]})
+				case "repeat":
+					r.Violation("ct:trace-differs-on-repeated-secret:"+g.name, fmt.Sprintf("%s: the executed blocks depend on whether the secret equals the secret of the previous call (sequence A A B B A B with A=%s, B=%s, stable over two passes); sites with differing counts between 'B after A' and 'B after B': %s", g.name, g.secrets[0], s, c08diff(a1, b1)), c08case{g.name, s, g.secrets[0]})
+				case "history":
+					r.Add("observation_history_dependent_trace_differences", 1)
+				default:
+					r.Add("observation_unstable_traces", 1)
+					r.NotExhaustive("traces of group " + g.name + " did not stabilise (history-dependent code such as pools): the group is not judged")
+				}
 			}
 		}
 		r.Shape(g.name)
